@@ -245,3 +245,38 @@ Example C08_example_cut_short :
   Hostile.ci_res (Hostile.check_initial 16 HostileProofs.wit_cfg Hostile.flags_repaired dec_two (longer ++ [1; 2])) = Hostile.CiErr /\
   Hostile.ci_res (Hostile.check_initial 16 HostileProofs.wit_cfg Hostile.flags_repaired dec_two longer) = Hostile.CiErr.
 Proof. vm_compute. repeat split; reflexivity. Qed.
+
+(* ---- round-6 addendum: the message TYPE of an early request gives it no way round the gate ----
+   (g) what IS on the wire while the gate is shut, frame by frame: a frame that belongs to no caller is a header-only KeepAliveAck
+       whose id the keep-alive handler enqueued for a keep-alive the reader sent (C07_log_is_received_keepalives); a frame that belongs
+       to a caller is a GetSupportedVersion or SetProtocolVersion of negotiate. A KeepAliveAck (or a CloseConnection, a
+       GetSupportedVersion ...) handed in by a caller through SendMessage / SendFor / SendNoWait is a gated request whatever its
+       type (C08_early_requests_held_back): it is not among them. That the code's gate does not look at the type is tied by the
+       `early-types` scripts of checks/c08.py. *)
+Theorem C08_wire_before_setup_is_over : forall cfg evs, exported_only evs ->
+  let s := run cfg evs in
+  ready s = false ->
+  forall o, In o (out s) ->
+    (o_src o = None /\ f_typ (o_frame o) = T_KeepAliveAck /\ f_len (o_frame o) = 0 /\ In (f_id (o_frame o)) (ka_enqueued s)) \/
+    (o_src o <> None /\ (f_typ (o_frame o) = T_GetSupportedVersion \/ f_typ (o_frame o) = T_SetProtocolVersion)).
+Proof. exact wire_before_ready. Qed.
+Print Assumptions C08_wire_before_setup_is_over.
+
+(* a KeepAliveAck through SendNoWait before Connect and a keep-alive from the reader during negotiation: the reader's keep-alive is
+   acknowledged at once (the loop's own frame, id 77), the caller's acknowledgement (id 4040) waits at the gate; after ConnReady it
+   is written behind the negotiation frame *)
+Definition ack_rq : req := mkReq T_KeepAliveAck 0 0 4040 1 false true.
+Definition evs_ack : list event :=
+  [Submit 1 ack_rq; ConnStart; ConnFirst (ren 0) HBNone;
+   NegSubmit 1000; WDefault; WAccept 1000; WWriteHdr; RCheck;
+   RFrame (mkFrame 2 T_KeepAlive 77 0 0 IOpaque) HBNone; RCheck; WTakeAck; WWriteHdr; PassGate 1;
+   RFrame gsvr22 HBNone; NegStep].
+Example C08_example_early_ack_held :
+  let s := run cfg11 evs_ack in
+  exported_only evs_ack /\ ready s = false /\
+  map (fun o => (f_typ (o_frame o), f_id (o_frame o), o_src o)) (out s) = [(T_GetSupportedVersion, 0, Some 1000); (T_KeepAliveAck, 77, None)] /\
+  caller_phase s 1 = Some (Gate ack_rq) /\
+  map (fun o => (f_typ (o_frame o), f_id (o_frame o), o_src o))
+      (out (run cfg11 (evs_ack ++ [ConnReady; PassGate 1; WDefault; WAccept 1; WWriteHdr]))) =
+    [(T_GetSupportedVersion, 0, Some 1000); (T_KeepAliveAck, 77, None); (T_KeepAliveAck, 4040, Some 1)].
+Proof. vm_compute. repeat split; auto. repeat constructor. Qed.
